@@ -12,10 +12,16 @@ run of consecutive functions before their bodies), because it decides which erro
 Tie: correspondence (`checks/c06_corr.py`, `harness/h_tc.c`, `Driver/TcDrv.lean`).
 Mirrors the pinned code INCLUDING its oddities, each marked `-- C:`.
 
-Outside the core (not modelled): modules/`use`, FFI (`extern`), tuples, ranges, slices,
-multi-dimensional and `{[n]}` arrays, `nil`, `c_ptr`, enum records (`Some { v : int; }`) with
-`match` binds and `if let`, explicit enumerator values, `do while`, C-style `for`, `|>`,
-top-level `let`/`var`, later passes (constant reduction "division by zero", emitter errors).
+In the core since D11: tuples `(e, …) : (T, …)` and constant-index projection `t[i]`, ranges
+`[a .. b, …]`, slices `a[i .. j]`, multi-dimensional array literals (shape: `tcRows` /
+`wellFormed`, tcheckarr.c), for-in over arrays / ranges / slices, the pipe `x |> f(args)` (scalar and
+tuple form), the shared-`mark` exhaustiveness algorithm of tcmatch.c (`exhaustiveM`).
+
+Outside the core (not modelled): modules/`use`, FFI (`extern`), `{[n]}` arrays, `nil`, `c_ptr`,
+enum records (`Some { v : int; }`) with `match` binds and `if let`, explicit enumerator values,
+`do while`, C-style `for`, range / slice PARAMETER syntax (`r[a..b]`), constant folding of a tuple
+index (only literal indices: `Expr.proj`), top-level `let`/`var`, later passes (constant reduction
+"division by zero", emitter errors).
 -/
 namespace Never.Tc
 
@@ -54,7 +60,14 @@ inductive Ty
   | record (s : String)
   | enum (s : String)
   | func (ps : TyList) (rc : PCst) (r : Ty)
-  | array (ec : PCst) (e : Ty)
+  /-- `[D1, …, Dn] : ec e` -/
+  | array (n : Nat) (ec : PCst) (e : Ty)
+  /-- `(c1 T1, …, cn Tn)` -/
+  | tuple (ms : TyList)
+  /-- a range of `n` dimensions (elements are `let int`) -/
+  | range (n : Nat)
+  /-- a slice of `n` dimensions over elements `ec e` -/
+  | slice (n : Nat) (ec : PCst) (e : Ty)
 inductive TyList
   | nil
   | cons (c : PCst) (t : Ty) (rest : TyList)
@@ -73,6 +86,16 @@ def TyList.ofList : List (PCst × Ty) → TyList
 def TyList.length : TyList → Nat
   | .nil => 0
   | .cons _ _ r => r.length + 1
+
+/-- `param_list_set_default_var` (members of a tuple LITERAL) -/
+def TyList.defaultVar : TyList → TyList
+  | .nil => .nil
+  | .cons c t r => .cons c.normVar t r.defaultVar
+
+def TyList.get? : TyList → Nat → Option (PCst × Ty)
+  | .nil, _ => none
+  | .cons c t _, 0 => some (c, t)
+  | .cons _ _ r, n + 1 => r.get? n
 
 /-- `comb_type` of a checked expression (without `COMB_TYPE_ERR`: the model stops before) -/
 inductive CT
@@ -96,7 +119,9 @@ inductive Rule
   | assignConst | assignType | varFromConst
   | callMismatch | paramKind | constToVarParam | recordCreate | enumCreate | notCallable
   | arith | modOp | compare | notOp | negOp | binNot | binOp
-  | condNotBool | whileNotBool | condBranches | branchArrays | branchFuncs
+  | condNotBool | whileNotBool | condBranches | branchArrays | branchFuncs | branchRanges | branchSlices
+  | tupleForm | tupleDerefDims | tupleDerefType | tupleIndex | tupleIndexProper
+  | arrayShape | rangeFrom | rangeTo | sliceDims | pipeNotFunc
   | returnType
   | matchNotEnum | matchExprNotEnum | matchGuardEnum | matchGuardItem | matchGuardNotEnum
   | matchGuardDiffers | matchMissing
@@ -140,6 +165,18 @@ inductive Expr
   | array (ln : Ln) (elems : ExprList) (ec : PCst) (ety : Ty)
   | deref (ln : Ln) (a : Expr) (idx : ExprList)
   | listcomp (ln : Ln) (e : Expr) (qs : QualList) (rc : PCst) (rty : Ty)
+  /-- a row `[ … ]` inside an array literal (ARRAY_SUB); the parser gives it no line -/
+  | sub (elems : ExprList)
+  /-- `(e1, …, en) : (T1, …, Tn)` -/
+  | tuple (ln : Ln) (elems : ExprList) (ms : TyList)
+  /-- `e[i]` with a literal index `i` (at line `iln`): the only index a tuple accepts -/
+  | proj (ln : Ln) (e : Expr) (iln : Ln) (i : Nat)
+  /-- `[f1 .. t1, …]`: the bounds flattened, `f1, t1, f2, t2, …` -/
+  | range (ln : Ln) (bounds : ExprList)
+  /-- `a[f1 .. t1, …]` -/
+  | slice (ln : Ln) (a : Expr) (bounds : ExprList)
+  /-- `l |> f(args)` -/
+  | pipe (ln : Ln) (l : Expr) (f : Expr) (args : ExprList)
 inductive ExprList
   | nil
   | cons (e : Expr) (rest : ExprList)
@@ -187,7 +224,13 @@ def Expr.ln : Expr → Ln
   | .id l _ | .enumVal l _ _ | .un l _ _ | .bin l _ _ _ | .sup l _ | .cond l _ _ _
   | .ass l _ _ | .while_ l _ _ | .forIn l _ _ _ | .call l _ _ | .seq l _ | .attr l _ _
   | .match_ l _ _ | .array l _ _ _ | .deref l _ _ | .listcomp l _ _ _ _ => l
+  | .tuple l _ _ | .proj l _ _ _ | .range l _ | .slice l _ _ | .pipe l _ _ _ => l
   | .funcLit _ => 0
+  | .sub _ => 0
+
+def ExprList.length : ExprList → Nat
+  | .nil => 0
+  | .cons _ r => r.length + 1
 
 def Func.ln : Func → Ln | .mk l _ _ _ _ _ _ => l
 def Func.name : Func → String | .mk _ n _ _ _ _ _ => n
@@ -288,9 +331,16 @@ def resolveTy (Γ : Env) : Ty → Except Diag Ty
     let ps' ← resolveTys Γ ps
     let r' ← resolveTy Γ r
     pure (.func ps' rc.normConst r')
-  | .array ec e => do
+  | .array n ec e => do
     let e' ← resolveTy Γ e
-    pure (.array ec.normVar e')
+    pure (.array n ec.normVar e')
+  | .tuple ms => do
+    let ms' ← resolveTys Γ ms
+    pure (.tuple ms')
+  | .range n => .ok (.range n)
+  | .slice n ec e => do
+    let e' ← resolveTy Γ e
+    pure (.slice n ec.normConst e')
   | .bool => .ok .bool
   | .int => .ok .int
   | .long => .ok .long
@@ -320,10 +370,13 @@ def paramCmp (constCmp : Bool) (c1 : PCst) (t1 : Ty) (c2 : PCst) (t2 : Ty) : Boo
   | .float, .float => true
   | .char, .char => true
   | .string, .string => true
-  | .array ec1 e1, .array ec2 e2 => paramCmp false ec1 e1 ec2 e2
+  | .array n1 ec1 e1, .array n2 ec2 e2 => n1 == n2 && paramCmp false ec1 e1 ec2 e2
+  | .range n1, .range n2 => n1 == n2
+  | .slice n1 ec1 e1, .slice n2 ec2 e2 => n1 == n2 && paramCmp false ec1 e1 ec2 e2
   | .enum a, .enum b => a == b
   | .record a, .record b => a == b
   | .func ps1 rc1 r1, .func ps2 rc2 r2 => paramListCmp true ps1 ps2 && paramCmp false rc1 r1 rc2 r2
+  | .tuple ms1, .tuple ms2 => paramListCmp false ms1 ms2
   | _, _ => false
 /-- `param_list_cmp` -/
 def paramListCmp (constCmp : Bool) : TyList → TyList → Bool
@@ -360,7 +413,12 @@ def paramExprCmp (constCmp : Bool) (pc : PCst) (pt : Ty) (eln : Ln) (c : Comb) :
   | .double, .val t => if isNum t then .ok else .fail (some ⟨eln, .paramKind⟩)
   | .char, .val .char => .ok
   | .string, .val .string => .ok
-  | .array _ e1, .val (.array ec2 e2) => if paramCmp false ec2 e1 ec2 e2 then .ok else .fail none
+  | .array n1 _ e1, .val (.array n2 ec2 e2) =>
+      if n1 == n2 && paramCmp false ec2 e1 ec2 e2 then .ok else .fail none
+  | .range n1, .val (.range n2) => if n1 == n2 then .ok else .fail none
+  | .slice n1 _ e1, .val (.slice n2 ec2 e2) =>
+      if n1 == n2 && paramCmp false ec2 e1 ec2 e2 then .ok else .fail none
+  | .tuple ms1, .val (.tuple ms2) => if paramListCmp false ms1 ms2 then .ok else .fail none
   | .record a, .val (.record b) => if a == b then .ok else .fail none
   | .record a, .recordId b => if a == b then .ok else .fail none
   | .enum a, .val (.enum b) => if a == b then .ok else .fail none
@@ -447,7 +505,8 @@ def binTy (op : BinOp) (l r : Ty) : Option Ty :=
       if convEnum l r then some .int
       else if op == .add && convString l r then some .string
       else match l, r with
-        | .array _ e1, .array ec2 e2 => if sameNumKind e1 e2 then some (.array ec2 e2) else none
+        | .array n1 _ e1, .array n2 ec2 e2 =>
+            if n1 == n2 && sameNumKind e1 e2 then some (.array n2 ec2 e2) else none
         | _, _ => none
   | .mul =>
     match convBasic l r with
@@ -455,7 +514,10 @@ def binTy (op : BinOp) (l r : Ty) : Option Ty :=
     | none =>
       if convEnum l r then some .int
       else match l, r with
-        | t, .array ec2 e2 => if isNum t && isNum e2 then some (.array ec2 e2) else none
+        | .array n1 ec1 e1, .array n2 _ e2 =>
+            -- matrix product: two-dimensional arrays of the same numeric kind
+            if n1 == 2 && n2 == 2 && sameNumKind e1 e2 then some (.array n1 ec1 e1) else none
+        | t, .array n2 ec2 e2 => if isNum t && isNum e2 then some (.array n2 ec2 e2) else none
         | _, _ => none
   | .div =>
     match convBasic l r with
@@ -492,7 +554,7 @@ def unTy (op : UnOp) (t : Ty) : Option Ty :=
   | .neg, .float => some .float
   | .neg, .double => some .double
   | .neg, .enum _ => some .int
-  | .neg, .array ec e => if isNum e then some (.array ec e) else none
+  | .neg, .array n ec e => if isNum e then some (.array n ec e) else none
   | .not, .bool => some .bool
   | .bnot, .int => some .int
   | .bnot, .long => some .long
@@ -517,8 +579,12 @@ def assTy : CT → CT → Option CT
     | .record a, .record b => if a == b then some (.val (.record a)) else none
     | .func ps1 rc1 r1, .func ps2 rc2 r2 =>
         if funcCmp ps1 rc1 r1 ps2 rc2 r2 then some (.val (.func ps1 rc1 r1)) else none
-    | .array ec1 e1, .array ec2 e2 =>
-        if paramCmp false ec1 e1 ec2 e2 then some (.val (.array ec1 e1)) else none
+    | .array n1 ec1 e1, .array n2 ec2 e2 =>
+        if n1 == n2 && paramCmp false ec1 e1 ec2 e2 then some (.val (.array n1 ec1 e1)) else none
+    | .tuple ms1, .tuple ms2 => if paramListCmp false ms1 ms2 then some (.val (.tuple ms1)) else none
+    | .range n1, .range n2 => if n1 == n2 then some (.val (.range n1)) else none
+    | .slice n1 ec1 e1, .slice n2 ec2 e2 =>
+        if n1 == n2 && paramCmp false ec1 e1 ec2 e2 then some (.val (.slice n1 ec1 e1)) else none
     | l, r => if isNum l && isNum r then some (.val l) else none
   | .val (.record a), .recordId b => if a == b then some (.val (.record a)) else none
   | .recordId a, .val (.record b) => if a == b then some (.val (.record a)) else none
@@ -536,8 +602,17 @@ def combCmp : CT → CT → Except Rule CT
     | .double, .double => .ok (.val .double)
     | .char, .char => .ok (.val .char)
     | .string, .string => .ok (.val .string)
-    | .array ec1 e1, .array ec2 e2 =>
-        if paramCmp false ec1 e1 ec2 e2 then .ok (.val (.array ec1 e1)) else .error .branchArrays
+    | .array n1 ec1 e1, .array n2 ec2 e2 =>
+        if n1 == n2 && paramCmp false ec1 e1 ec2 e2 then .ok (.val (.array n1 ec1 e1))
+        else .error .branchArrays
+    -- as repaired in b996419 (the pinned tree read the CONDITION's comb here)
+    | .range n1, .range n2 => if n1 == n2 then .ok (.val (.range n1)) else .error .branchRanges
+    | .slice n1 ec1 e1, .slice n2 ec2 e2 =>
+        if n1 == n2 && paramCmp false ec1 e1 ec2 e2 then .ok (.val (.slice n1 ec1 e1))
+        else .error .branchSlices
+    -- as repaired in b235435 (the pinned tree did not compare the member lists)
+    | .tuple ms1, .tuple ms2 =>
+        if paramListCmp false ms1 ms2 then .ok (.val (.tuple ms1)) else .error .condBranches
     | .func ps1 rc1 r1, .func ps2 rc2 r2 =>
         if funcCmp ps1 rc1 r1 ps2 rc2 r2 then .ok (.val (.func ps1 rc1 r1)) else .error .branchFuncs
     | .enum a, .enum b => if a == b then .ok (.val (.enum a)) else .error .condBranches
@@ -584,6 +659,139 @@ def checkElems (ec : PCst) (et : Ty) : List (Ln × Comb) → Except Diag Unit
     | .ok => checkElems ec et r
     | .fail (some d) => .error d
     | .fail none => .error ⟨ln, .arrayElem⟩
+
+/-! ## array literal shape (tcheckarr.c) -/
+
+/-- a node of `array_to_depth_list`: an element expression (line, comb) or a row with its
+element count (`elements->count`, 0 for `[ ]`) -/
+inductive Item
+  | leaf (ln : Ln) (c : Comb)
+  | sub (cnt : Nat)
+
+/-- the nodes by distance from the literal: `levels[0]` are its own elements -/
+abbrev Levels := List (List Item)
+
+/-- breadth-first order = level-wise concatenation in source order -/
+def zipLevels : Levels → Levels → Levels
+  | [], b => b
+  | a, [] => a
+  | x :: a, y :: b => (x ++ y) :: zipLevels a b
+
+/-- the nodes at the greatest distance, walked from the last to the first: elements are compared
+with the declared element type, empty rows pass -/
+def checkDeepest (ec : PCst) (et : Ty) : List Item → Except Diag Unit
+  | [] => .ok ()
+  | .leaf ln c :: r =>
+    match paramExprCmp false ec et ln c with
+    | .ok => checkDeepest ec et r
+    | .fail (some d) => .error d
+    | .fail none => .error ⟨ln, .arrayElem⟩
+  | .sub _ :: r => checkDeepest ec et r
+
+/-- the remaining nodes of a shallower level: rows with as many elements as the first one seen
+(`first_comb_elems`); C: as repaired, an EMPTY row is compared too (seeds C01-6 / C12-7) -/
+def checkRowsSame (n : Nat) : List Item → Except Diag Unit
+  | [] => .ok ()
+  | .leaf ln _ :: _ => .error ⟨ln, .arrayElem⟩
+  | .sub m :: r => if m == n then checkRowsSame n r else .error ⟨0, .arrayShape⟩
+
+/-- a shallower level, walked from the last node to the first -/
+def checkRows : List Item → Except Diag Unit
+  | [] => .ok ()
+  | .leaf ln _ :: _ => .error ⟨ln, .arrayElem⟩
+  | .sub n :: r => checkRowsSame n r
+
+def checkShallow : List (List Item) → Except Diag Unit
+  | [] => .ok ()
+  | l :: r => do checkRows l.reverse; checkShallow r
+
+/-- `array_depth_list_well_formed`: the depth list is walked from its tail (deepest level, last
+node) to the head -/
+def wellFormed (ec : PCst) (et : Ty) (lv : Levels) : Except Diag Unit :=
+  match lv.reverse with
+  | [] => .ok ()
+  | deepest :: shallower => do
+    checkDeepest ec et deepest.reverse
+    checkShallow shallower
+
+def lastIsSub : List Item → Bool
+  | [] => false
+  | [.sub _] => true
+  | [.leaf _ _] => false
+  | _ :: r => lastIsSub r
+
+/-- `array_set_dims`: one dimension per level whose first visited node is a row, plus the literal -/
+def dimsOf (lv : Levels) : Nat := (lv.filter lastIsSub).length + 1
+
+/-! ## for-in, ranges, pipes -/
+
+/-- `symtab_add_param_from_forin` after the one-dimension test of `expr_forin_check_type`: the
+iterator of an ARRAY takes the constness of the array, that of a slice the constness of the
+element type (the array's own constness is lost: known finding), that of a range is `let int` -/
+def forinIter (c : Comb) : Option Comb :=
+  match c.ct with
+  | .val (.array n _ et) => if n == 1 then some ⟨.val et, c.cst⟩ else none
+  | .val (.range n) => if n == 1 then some ⟨.val .int, .const⟩ else none
+  | .val (.slice n ec et) => if n == 1 then some ⟨.val et, ec.toCst⟩ else none
+  | _ => none
+
+/-- `expr_qualifier_set_comb_type` -/
+def qualIter (c : Comb) : Option Comb :=
+  match c.ct with
+  | .val (.array n ec et) => if n == 1 then some ⟨.val et, ec.toCst⟩ else none
+  | .val (.range n) => if n == 1 then some ⟨.val .int, .temp⟩ else none
+  | .val (.slice n ec et) => if n == 1 then some ⟨.val et, ec.toCst⟩ else none
+  | _ => none
+
+/-- a bound of a range: int or enum -/
+def boundOk : CT → Bool
+  | .val .int | .val (.enum _) => true
+  | _ => false
+
+/-- `param_list_expr_expr_list_cmp` (scalar pipe `l |> f(args)`, `const_cmp` on): the first
+parameter against the piped value FIRST, then the counts, then the explicit arguments -/
+def pipeCmp (ps : List (PCst × Ty)) (l : Ln × Comb) (as : List (Ln × Comb)) : CmpRes :=
+  match ps with
+  | [] => .fail none
+  | (pc, pt) :: rest =>
+    match paramExprCmp true pc pt l.1 l.2 with
+    | .ok => if rest.length != as.length then .fail none else paramExprListGo true rest as
+    | r => r
+
+def pipeTupleGo : List (PCst × Ty) → List (PCst × Ty) → List (Ln × Comb) → CmpRes
+  | (pc, pt) :: ps, (mc, mt) :: ms, as =>
+    if paramCmp false pc pt mc mt then pipeTupleGo ps ms as else .fail none
+  | ps, [], as => paramExprListGo false ps as
+  | [], _ :: _, _ => .ok
+
+/-- `param_list_param_list_expr_list_cmp` (tuple pipe `t |> f(args)`): C: every comparison is
+made with `const_cmp = false` — `let` members reach `var` parameters (known finding) -/
+def pipeTupleCmp (ps ms : List (PCst × Ty)) (as : List (Ln × Comb)) : CmpRes :=
+  if ps.isEmpty then .fail none
+  else if ps.length != ms.length + as.length then .fail none
+  else pipeTupleGo ps ms as
+
+/-- dereference of anything but a tuple (`expr_array_deref_*_check_type`), the indices checked -/
+def derefComb (ln : Ln) (ca : Comb) (cs : List (Ln × Comb)) : Except Diag Comb :=
+  match ca.ct with
+  | .val (.array n ec et) =>
+    if cs.length != n then .error ⟨ln, .derefDims⟩ else do
+      checkIndices cs
+      pure ⟨.val et, if ca.cst == .const then .const else ec.toCst⟩
+  | .val (.slice n ec et) =>
+    if cs.length != n then .error ⟨ln, .derefDims⟩ else do
+      checkIndices cs
+      pure ⟨.val et, if ca.cst == .const then .const else ec.toCst⟩
+  | .val (.range n) =>
+    -- C: the result is tagged COMB_TYPE_ARRAY (one dimension of `let int`)
+    if cs.length != n then .error ⟨ln, .derefDims⟩ else do
+      checkIndices cs
+      pure ⟨.val (.array 1 .const .int), .temp⟩
+  | .val .string =>
+    if lenNot1 cs then .error ⟨ln, .derefDims⟩ else do
+      checkIndices cs
+      pure ⟨.val .char, .const⟩
+  | _ => .error ⟨ln, .derefNonArray⟩
 
 /-! ## function signatures -/
 
@@ -677,6 +885,42 @@ def armsCmp (a : CT) : List Comb → Except Rule CT
 def exhaustive (Γ : Env) (en : String) (gs : GuardList) : Bool :=
   hasElse gs || (Γ.enumItems en).all (fun it => coversItem it gs)
 
+/-! ### the same test as tcmatch.c computes it, on the `mark` flag of the enumerators
+
+`enumerator.mark` lives in the enum DECLARATION: it is shared by every `match` over that enum in
+the module.  `expr_match_guard_list_exhaustive`: a match with an `else` guard does not touch the
+marks; one without clears the marks of the matched enum, marks the enumerators named by the
+guards, tests that all are marked, and clears them again.  `Marks` = the set of (enum,
+enumerator) whose flag is 1.  `exhaustiveM_fst` (Lemmas/CheckRules.lean): whatever marks earlier
+matches left, the verdict is `exhaustive` — which is why `tc` can use the state-free test. -/
+
+abbrev Marks := List (String × String)
+
+/-- `expr_match_guard_unmark_items` -/
+def unmarkEnum (m : Marks) (en : String) : Marks := m.filter (fun p => p.1 != en)
+
+/-- `expr_match_guard_list_mark_items` -/
+def markGuards (en : String) : GuardList → Marks → Marks
+  | .nil, m => m
+  | .cons (.item _ _ it _) rest, m => markGuards en rest ((en, it) :: m)
+  | .cons (.else_ _ _) rest, m => markGuards en rest m
+
+/-- `expr_match_guard_are_all_mark_items` -/
+def allMarked (en : String) (items : List String) (m : Marks) : Bool :=
+  items.all (fun it => m.contains (en, it))
+
+/-- `expr_match_guard_list_exhaustive` with the marks it finds and the marks it leaves -/
+def exhaustiveM (Γ : Env) (en : String) (gs : GuardList) (m : Marks) : Bool × Marks :=
+  if hasElse gs then (true, m)
+  else
+    let m2 := markGuards en gs (unmarkEnum m en)
+    (allMarked en (Γ.enumItems en) m2, unmarkEnum m2 en)
+
+/-- the marks after a sequence of earlier exhaustiveness checks (any enums, any guards) -/
+def runMatches (Γ : Env) : List (String × GuardList) → Marks → Marks
+  | [], m => m
+  | (en, gs) :: rest, m => runMatches Γ rest (exhaustiveM Γ en gs m).2
+
 /-! ## the checker -/
 
 def litComb (t : Ty) : Except Diag Comb := .ok ⟨.val t, .temp⟩
@@ -751,11 +995,11 @@ def tc (Γ : Env) : Expr → Except Diag Comb
     if isBool cc.ct then pure ⟨.val .int, .const⟩ else .error ⟨ln, .whileNotBool⟩
   | .forIn ln x a b => do
     let ca ← tc Γ a
-    match ca.ct with
-    | .val (.array _ et) =>
-      let _ ← tc (Γ.push [(x, .forin ⟨.val et, ca.cst⟩)]) b
+    match forinIter ca with
+    | some it =>
+      let _ ← tc (Γ.push [(x, .forin it)]) b
       pure ⟨.val .int, .temp⟩
-    | _ => .error ⟨ln, .forinNotArray⟩
+    | none => .error ⟨ln, .forinNotArray⟩
   | .call ln f args => do
     let cf ← tc Γ f
     let cs ← tcArgs Γ args
@@ -813,31 +1057,78 @@ def tc (Γ : Env) : Expr → Except Diag Comb
         else .error ⟨ln, .matchMissing⟩
     | _ => .error ⟨s.ln, .matchNotEnum⟩
   | .array _ elems ec ety => do
-    let cs ← tcArgs Γ elems
+    let lv ← tcRows Γ elems
     let et ← resolveTy Γ ety
-    -- C: `array_to_depth_list` walks the elements from the LAST to the first, so the first
-    -- diagnostic of `array_depth_list_well_formed` is about the last offending element
-    checkElems ec.normVar et cs.reverse
-    pure ⟨.val (.array ec.normVar et), arrayLitCst ec.normVar⟩
+    -- C: `array_depth_list_well_formed` walks the depth list from the LAST node to the first, so
+    -- the first diagnostic is about the last offending element of the deepest level
+    wellFormed ec.normVar et lv
+    pure ⟨.val (.array (dimsOf lv) ec.normVar et), arrayLitCst ec.normVar⟩
+  | .sub elems => do
+    -- only inside an array literal (grammar); there it is `tcRows` that looks at it
+    let _ ← tcRows Γ elems
+    pure ⟨.val .int, .temp⟩
   | .deref ln a idx => do
     let ca ← tc Γ a
     let cs ← tcArgs Γ idx
     match ca.ct with
-    | .val (.array ec et) =>
-      if lenNot1 cs then .error ⟨ln, .derefDims⟩ else do
-        checkIndices cs
-        pure ⟨.val et, if ca.cst == .const then .const else ec.toCst⟩
+    | .val (.tuple _) =>
+      -- `expr_array_deref_touple_check_type`: a literal index is `Expr.proj`; anything else of
+      -- int kind would have to be folded by the constant reducer (not modelled: "not proper")
+      if lenNot1 cs then .error ⟨ln, .tupleDerefDims⟩
+      else if cs.all (fun c => boundOk c.2.ct) then .error ⟨ln, .tupleIndexProper⟩
+      else .error ⟨ln, .tupleDerefType⟩
+    | _ => derefComb ln ca cs
+  | .proj ln e iln i => do
+    let c ← tc Γ e
+    match c.ct with
+    | .val (.tuple ms) =>
+      match ms.get? i with
+      | some (pc, t) => pure ⟨.val t, if c.cst == .const then .const else pc.toCst⟩
+      | none => .error ⟨ln, .tupleIndex⟩
+    | _ => derefComb ln c [(iln, ⟨.val .int, .temp⟩)]
+  | .tuple ln elems ms => do
+    let cs ← tcArgs Γ elems
+    let ms' ← resolveTys Γ ms.defaultVar
+    (paramExprListCmp false ms'.toList cs).toExcept ⟨ln, .tupleForm⟩
+    pure ⟨.val (.tuple ms'), .temp⟩
+  | .range _ bounds => do
+    let n ← tcBounds Γ bounds
+    pure ⟨.val (.range n), .temp⟩
+  | .slice ln a bounds => do
+    let ca ← tc Γ a
+    let n ← tcBounds Γ bounds
+    -- C: the slice is TEMP whatever the constness of the array (known finding)
+    match ca.ct with
+    | .val (.array m ec et) =>
+      if m == n then pure ⟨.val (.slice m ec et), .temp⟩ else .error ⟨ln, .sliceDims⟩
+    | .val (.range m) =>
+      if m == n then pure ⟨.val (.range m), .temp⟩ else .error ⟨ln, .sliceDims⟩
+    | .val (.slice m ec et) =>
+      if m == n then pure ⟨.val (.slice m ec et), .temp⟩ else .error ⟨ln, .sliceDims⟩
     | .val .string =>
-      if lenNot1 cs then .error ⟨ln, .derefDims⟩ else do
-        checkIndices cs
-        pure ⟨.val .char, .const⟩
+      if n == 1 then pure ⟨.val .string, .temp⟩ else .error ⟨ln, .sliceDims⟩
     | _ => .error ⟨ln, .derefNonArray⟩
+  | .pipe ln l f args => do
+    -- `expr_complr_check_type`
+    let cl ← tc Γ l
+    let cf ← tc Γ f
+    let cs ← tcArgs Γ args
+    match cf.ct with
+    | .val (.func ps rc r) =>
+      match cl.ct with
+      | .val (.tuple ms) =>
+        (pipeTupleCmp ps.toList ms.toList cs).toExcept ⟨ln, .callMismatch⟩
+        pure ⟨.val r, rc.toCst⟩
+      | _ =>
+        (pipeCmp ps.toList (l.ln, cl) cs).toExcept ⟨ln, .callMismatch⟩
+        pure ⟨.val r, rc.toCst⟩
+    | _ => .error ⟨ln, .pipeNotFunc⟩
   | .listcomp ln e qs rc rty => do
     let Γq ← tcQuals Γ.push qs
     let ce ← tc Γq e
     let rt ← resolveTy Γq rty
     (paramExprCmp false rc.normVar rt e.ln ce).toExcept ⟨ln, .listcompRet⟩
-    pure ⟨.val (.array rc.normVar rt), .temp⟩
+    pure ⟨.val (.array 1 rc.normVar rt), .temp⟩
 /-- `expr_list_check_type`, keeping each argument's line -/
 def tcArgs (Γ : Env) : ExprList → Except Diag (List (Ln × Comb))
   | .nil => .ok []
@@ -845,6 +1136,33 @@ def tcArgs (Γ : Env) : ExprList → Except Diag (List (Ln × Comb))
     let c ← tc Γ e
     let cs ← tcArgs Γ rest
     pure ((e.ln, c) :: cs)
+/-- the elements of an array literal or of one of its rows, in source order (depth first, as
+`expr_list_check_type` visits them), collected by distance -/
+def tcRows (Γ : Env) : ExprList → Except Diag Levels
+  | .nil => .ok []
+  | .cons e rest => do
+    let (i, below) ← (match e with
+      | .sub es => do
+        let lv ← tcRows Γ es
+        pure (Item.sub es.length, lv)
+      | e' => do
+        let c ← tc Γ e'
+        pure (Item.leaf e'.ln c, ([] : Levels)))
+    let lr ← tcRows Γ rest
+    pure (zipLevels ([i] :: below) lr)
+/-- `expr_range_list_check_type`: per dimension both bounds are checked, then their kinds; the
+number of dimensions -/
+def tcBounds (Γ : Env) : ExprList → Except Diag Nat
+  | .cons f (.cons t rest) => do
+    let cf ← tc Γ f
+    let ct ← tc Γ t
+    if boundOk cf.ct then
+      if boundOk ct.ct then do
+        let n ← tcBounds Γ rest
+        pure (n + 1)
+      else .error ⟨t.ln, .rangeTo⟩
+    else .error ⟨f.ln, .rangeFrom⟩
+  | _ => .ok 0
 /-- `seq_list_check_type`; the result is the comb of the last item when it is an expression -/
 def tcSeq (Γ : Env) : SeqList → Except Diag (Option Comb)
   | .nil => .ok none
@@ -906,11 +1224,11 @@ def tcQuals (Γ : Env) : QualList → Except Diag Env
   | .nil => .ok Γ
   | .cons (.gen ln x e) rest => do
     let c ← tc Γ e
-    match c.ct with
-    | .val (.array ec et) =>
-      let Γ' ← Γ.add ln x (.qual ⟨.val et, ec.toCst⟩)
+    match qualIter c with
+    | some it =>
+      let Γ' ← Γ.add ln x (.qual it)
       tcQuals Γ' rest
-    | _ => .error ⟨ln, .genNotArray⟩
+    | none => .error ⟨ln, .genNotArray⟩
   | .cons (.filter ln e) rest => do
     let c ← tc Γ e
     if isBool c.ct then tcQuals Γ rest else .error ⟨ln, .filterNotBool⟩
